@@ -36,10 +36,10 @@ import numpy as np, verif_probes as VP
 from pyxel.pipelines import DetectionPipeline, ModelFunction, Processor
 from pyxel.exposure import Readout, run_pipeline
 VIOLATED, DETAIL = False, ''
-for wic in (False, True):
+for wic, narrow in ((False, None), (True, None), (False, 2), (True, 1)):      # narrow: the float buckets are written in single precision from that step on
     VP.LOG.clear()
     det = VP.detector()
-    pipe = DetectionPipeline(photon_collection=[ModelFunction(func='verif_probes.stamp', name='stamp', arguments={})])
+    pipe = DetectionPipeline(photon_collection=[ModelFunction(func='verif_probes.stamp', name='stamp', arguments={'narrow_from': narrow})])
     times, start = [1.0, 2.5, 4.0], 0.5
     r = run_pipeline(processor=Processor(detector=det, pipeline=pipe), readout=Readout(times=times, start_time=start, non_destructive=True), outputs=None, debug=False, with_inherited_coords=wic)
     node = r['/bucket'] if wic else r
@@ -49,7 +49,7 @@ for wic in (False, True):
             VIOLATED, DETAIL = True, f'{name}: time labels {list(da["time"].values)} shape {da.shape}'; break
         for i in range(3):
             exp = VP.STAMPS[i][name]
-            if not np.array_equal(np.asarray(da.isel(time=i)), exp) or (name == 'image' and da.dtype != exp.dtype):
+            if not np.array_equal(np.asarray(da.isel(time=i), dtype=np.float64), np.asarray(exp, dtype=np.float64)) or (name == 'image' and da.dtype != exp.dtype):
                 VIOLATED, DETAIL = True, f'{name} slice {i}: {np.asarray(da.isel(time=i)).ravel()[:3]} dtype {da.dtype}, detector held {exp.ravel()[:3]} dtype {exp.dtype}'; break
         if VIOLATED: break
         if list(da['y'].values) != [0, 1, 2] or list(da['x'].values) != [0, 1, 2, 3]:
